@@ -521,7 +521,9 @@ class SynthObject(gpp.UGenParameter, metaclass=MetaSynthObject):
                 if isinstance(input, UGen) and input._descendants:
                     # The same object can be used by more than one input.
                     input._descendants.discard(self)
-                    input._optimize_graph()
+                    # A previous iteration may have replaced this input.
+                    if self._synthdef._has_ugen(input):
+                        input._optimize_graph()
             self._synthdef._remove_ugen(self)
             return True
         return False
